@@ -85,7 +85,7 @@ def main():
                 if "history" in det:
                     wit = {"history": det["history"]}
                     eg = "history " + short(det["history"])
-                elif "doc" in det and not str(det.get("case", "")).startswith(("K:", "F:", "E:", "S:", "X:", "D:", "H:", "P:", "R:", "I:", "SUB")):
+                elif "doc" in det and not str(det.get("case", "")).startswith(("K:", "F:", "E:", "S:", "X:", "D:", "H:", "P:", "R:", "I:", "SUB", "M:", "N:", "A:", "CF:", "API")):
                     wit = {"doc": det["doc"]}
                     if det.get("fm") is not None:
                         wit["fm"] = det["fm"]
